@@ -61,6 +61,9 @@ var (
 	workers = flag.Int("workers", 16, "parallel workers")
 	verbose = flag.Bool("v", false, "print every finding")
 	child   = flag.Bool("child", false, "run the four calls of the case on stdin, print the outcomes (used for calls that may not return)")
+	// the budget of a child (the parent sets them; the confirmation of a stall runs with ten times the seconds)
+	childSecs = flag.Int("childsecs", childSeconds, "-child: give up after this many seconds")
+	childMiB  = flag.Int("childmib", childHeapMiB, "-child: give up when the heap is larger than this many MiB")
 )
 
 var rep *lib.Report
@@ -382,8 +385,10 @@ const selfContainingID = "C13-set-self-containing"
 // alwaysChild: every call goes through a child process (replay mode: a replayed call may be one that does not return)
 var alwaysChild bool
 
+var noChildHook = os.Getenv("VERIF_JPMUT_NOCHILD") != ""
+
 func (c *Case) mayNotReturn() bool {
-	if os.Getenv("VERIF_JPMUT_NOCHILD") != "" {
+	if noChildHook {
 		// test hook for the watchdog: make the call in-process (the run then ends early with a `hang` violation)
 		return false
 	}
@@ -404,6 +409,11 @@ const (
 	stuckHeapGiB  = 4
 	childExitTime = 7
 	childExitMem  = 8
+	// a stall that is not of a recognised known shape is confirmed before it is reported: the call is made again,
+	// alone in a child process, with ten times the seconds (time depends on the load of the machine; the heap a call
+	// needs does not, its limit is raised moderately)
+	confirmFactor  = 10
+	confirmHeapMiB = 2048
 )
 
 // childMain: read one case from stdin, make the four calls, print the outcomes. A watcher ends the process when
@@ -414,11 +424,11 @@ func childMain() {
 		var ms runtime.MemStats
 		for {
 			time.Sleep(20 * time.Millisecond)
-			if time.Since(start) > childSeconds*time.Second {
+			if time.Since(start) > time.Duration(*childSecs)*time.Second {
 				os.Exit(childExitTime)
 			}
 			runtime.ReadMemStats(&ms)
-			if ms.HeapAlloc > childHeapMiB<<20 {
+			if ms.HeapAlloc > uint64(*childMiB)<<20 {
 				os.Exit(childExitMem)
 			}
 		}
@@ -442,12 +452,23 @@ func childMain() {
 
 // callInChild makes the four calls of the case in a child process; how != "" says why no outcome came back.
 func callInChild(c *Case) (impl, must [2]outcome, how string) {
+	return callInChildWith(c, childSeconds, childHeapMiB)
+}
+
+// confirmStall: a call that stalled is made again, alone in a child process, with the larger budget. how != "": it
+// stalled again (a hang); else the outcomes.
+func confirmStall(c *Case, secs int) (impl, must [2]outcome, how string) {
+	rep.Count("stall.confirmation_runs", 1)
+	return callInChildWith(c, secs*confirmFactor, confirmHeapMiB)
+}
+
+func callInChildWith(c *Case, secs, mib int) (impl, must [2]outcome, how string) {
 	exe, err := os.Executable()
 	if err != nil {
 		return impl, must, "no executable: " + err.Error()
 	}
 	js, _ := json.Marshal(c)
-	cmd := exec.Command(exe, "-child")
+	cmd := exec.Command(exe, "-child", "-childsecs", strconv.Itoa(secs), "-childmib", strconv.Itoa(mib))
 	cmd.Stdin = strings.NewReader(string(js))
 	var out strings.Builder
 	cmd.Stdout = &out
@@ -458,7 +479,7 @@ func callInChild(c *Case) (impl, must [2]outcome, how string) {
 	go func() { done <- cmd.Wait() }()
 	select {
 	case err = <-done:
-	case <-time.After((childSeconds + 6) * time.Second):
+	case <-time.After(time.Duration(secs+6) * time.Second):
 		_ = cmd.Process.Kill()
 		<-done
 		return impl, must, "Set did not return (child process killed)"
@@ -467,9 +488,9 @@ func callInChild(c *Case) (impl, must [2]outcome, how string) {
 		if ee, ok := err.(*exec.ExitError); ok {
 			switch ee.ExitCode() {
 			case childExitTime:
-				return impl, must, fmt.Sprintf("Set did not return within %d s", childSeconds)
+				return impl, must, fmt.Sprintf("Set did not return within %d s", secs)
 			case childExitMem:
-				return impl, must, fmt.Sprintf("Set did not return before the heap reached %d MiB", childHeapMiB)
+				return impl, must, fmt.Sprintf("Set did not return before the heap reached %d MiB", mib)
 			}
 		}
 		return impl, must, "child process failed: " + err.Error()
@@ -492,6 +513,20 @@ type worker struct {
 	// the case whose Go calls are running right now (nil: none) and since when (unix nano): read by the watchdog
 	inCall  atomic.Pointer[Case]
 	inSince atomic.Int64
+	// the start time of the call a confirmation run has found to return (the watchdog leaves it alone up to ten
+	// times the budget)
+	confirmed atomic.Int64
+}
+
+var noteMu sync.Mutex
+
+func appendNote(notes []string, n string) []string {
+	noteMu.Lock()
+	defer noteMu.Unlock()
+	if len(notes) > 40 {
+		return notes
+	}
+	return append(notes, n)
 }
 
 func (w *worker) ask(reqs []string) ([]string, error) {
@@ -816,16 +851,30 @@ func (w *worker) problem(c *Case, clause, what string, genData, tied bool, dw st
 		if err != nil {
 			return err
 		}
-		if id == "" && c.repeated && clause != "panic" && clause != "simple-gen" {
-			id, flags = repeatedID, "repeated-location"
-		}
-		if id == "" && clause != "panic" && clause != "simple-gen" {
-			ok, err := w.reevaluated(c, genData, dw, extra)
+		// the two classes of the sequential traversal: what the defect predicts is the model's outcome (the model works
+		// through the path once per occurrence and evaluates a filter when it reaches the node, as the code does) in
+		// the member order `dw`; the implementation must have given exactly that, anything else is a violation
+		if id == "" && clause != "panic" && clause != "simple-gen" && (c.repeated || c.filterBelowDescent()) {
+			pred, err := w.ask([]string{c.modelReq(genData, curFlags, dw)})
 			if err != nil {
 				return err
 			}
-			if ok {
-				id, flags = reevaluatedID, "flags=all-off+filter-reevaluated"
+			implStr, _ := extra["impl"].(string)
+			if extra != nil {
+				extra["predicted"] = pred[0]
+			}
+			if pred[0] != implStr || strings.HasPrefix(pred[0], "fault") || pred[0] == "unmodelled" {
+				rep.Count("sequential.prediction_differs", 1)
+			} else if c.repeated {
+				id, flags = repeatedID, "repeated-location"
+			} else {
+				ok, err := w.reevaluated(c, genData, dw, extra)
+				if err != nil {
+					return err
+				}
+				if ok {
+					id, flags = reevaluatedID, "flags=all-off+filter-reevaluated"
+				}
 			}
 		}
 		if id != "" {
@@ -1116,6 +1165,17 @@ func (w *worker) run(c *Case) error {
 						seen[l] = true
 					}
 				}
+			}
+		}
+		if how != "" && !(c.mayNotReturn() && c.repeated) && !strings.HasPrefix(how, "the data contains itself") {
+			// not the recognised shape: confirm with ten times the time before calling it a hang
+			first := how
+			impl, must, how = confirmStall(c, childSeconds)
+			if how == "" {
+				rep.Count("stall.slow_not_a_hang", 1)
+				rep.Notes = appendNote(rep.Notes, fmt.Sprintf("slow, not a hang: %s — first attempt: %s; returned within %d s when made again alone", c.String(), first, childSeconds*confirmFactor))
+			} else {
+				how = first + "; made again alone: " + how
 			}
 		}
 		if how != "" && !(c.mayNotReturn() && c.repeated) {
@@ -1765,6 +1825,11 @@ func main() {
 		return
 	}
 	rep = lib.NewReport(*prop, *tier, *seed)
+	if noChildHook {
+		// never silent: the hook changes what the run does (it exists to exercise the in-process watchdog)
+		rep.Notes = appendNote(rep.Notes, "TEST HOOK VERIF_JPMUT_NOCHILD is set: calls that may not return are made in-process; this run is not a check of the property")
+		fmt.Fprintln(os.Stderr, "jpmut: TEST HOOK VERIF_JPMUT_NOCHILD is set (calls that may not return are made in-process)")
+	}
 	knownList = lib.LoadKnown(*known, *prop)
 	initFlags()
 	if *replay != "" {
@@ -1825,9 +1890,49 @@ func main() {
 				if c == nil {
 					continue
 				}
-				since := time.Duration(now - w.inSince.Load())
+				started := w.inSince.Load()
+				since := time.Duration(now - started)
 				if since > stuckSeconds*time.Second || (ms.HeapAlloc > stuckHeapGiB<<30 && since > 2*time.Second) {
-					what := fmt.Sprintf("%s does not return (running for %s, heap %d MiB): the call is abandoned", c.name(), since.Round(time.Second), ms.HeapAlloc>>20)
+					// confirm before reporting: the same call alone in a child process with ten times the time. It is a
+					// hang only if it stalls there as well (or if the call in this process outlives ten times its budget).
+					if w.confirmed.Load() == started {
+						if since <= stuckSeconds*confirmFactor*time.Second && ms.HeapAlloc <= 2*stuckHeapGiB<<30 {
+							continue
+						}
+					} else {
+						cc := *c
+						ch := make(chan string, 1)
+						go func() {
+							_, _, h := confirmStall(&cc, stuckSeconds)
+							ch <- h
+						}()
+						how := ""
+					wait:
+						for {
+							select {
+							case how = <-ch:
+								break wait
+							case <-time.After(500 * time.Millisecond):
+								// the heap a call needs does not depend on the load: no waiting beyond twice the limit
+								runtime.ReadMemStats(&ms)
+								if ms.HeapAlloc > 2*stuckHeapGiB<<30 {
+									how = fmt.Sprintf("the heap of this process passed %d GiB while the call was being made again", 2*stuckHeapGiB)
+									break wait
+								}
+							}
+						}
+						if how == "" && w.inCall.Load() == c && w.inSince.Load() == started {
+							w.confirmed.Store(started)
+						}
+						if how == "" {
+							rep.Count("stall.slow_not_a_hang", 1)
+							rep.Notes = appendNote(rep.Notes, fmt.Sprintf("slow, not a hang: %s — in this process for %s (heap %d MiB); returned within %d s when made again alone",
+								c.String(), since.Round(time.Second), ms.HeapAlloc>>20, stuckSeconds*confirmFactor))
+							continue
+						}
+					}
+					what := fmt.Sprintf("%s does not return (running for %s, heap %d MiB; confirmed by making the call again alone with %d s): the call is abandoned",
+						c.name(), since.Round(time.Second), ms.HeapAlloc>>20, stuckSeconds*confirmFactor)
 					rep.Count("clause.hang", 1)
 					c.finding("violation", "hang", what, nil)
 					rep.Notes = append(rep.Notes, "run ended early: "+what+" — "+c.String())
